@@ -319,6 +319,30 @@ class _FoldTests(ast.NodeTransformer):
             return None
         return n
 
+    def visit_Call(self, n):
+        n = self.generic_visit(n)
+        lam = n.func
+        if isinstance(lam, ast.Lambda) and not n.keywords and not any(
+                isinstance(a, ast.Starred) for a in n.args):
+            ps_ = [a.arg for a in lam.args.args]
+            if len(ps_) == len(n.args) and not lam.args.vararg and \
+                    not lam.args.kwarg and not lam.args.kwonlyargs:
+                uses = {p_: sum(1 for x in ast.walk(lam.body)
+                                if isinstance(x, ast.Name) and x.id == p_)
+                        for p_ in ps_}
+                pure = all(not any(isinstance(x, ast.Call)
+                                   for x in ast.walk(a))
+                           for a in n.args)
+                # every argument is evaluated exactly once either way when
+                # each parameter occurs once, in parameter order
+                order = [x.id for x in ast.walk(lam.body)
+                         if isinstance(x, ast.Name) and x.id in ps_]
+                if pure or (all(u == 1 for u in uses.values())
+                            and order == ps_):
+                    return _Subst(dict(zip(ps_, n.args))).visit(
+                        clone(lam.body))
+        return n
+
 
 def _drop_dead(stmts):
     """Remove statements that follow a return/raise/break/continue in the
@@ -1095,6 +1119,12 @@ class Inliner:
         def simple(e):
             if isinstance(e, (ast.Constant, ast.Name)):
                 return True
+            if isinstance(e, ast.Lambda):
+                # closed lambdas only (no free variables besides builtins)
+                ps_ = {a.arg for a in e.args.args}
+                return all(not isinstance(x, ast.Name) or x.id in ps_
+                           or x.id in ('len', 'int', 'str', 'max', 'min')
+                           for x in ast.walk(e.body))
             if isinstance(e, ast.Attribute):
                 return simple(e.value)
             if isinstance(e, (ast.Tuple, ast.List)):
@@ -1121,6 +1151,9 @@ class Inliner:
             if isinstance(x, ast.Global):
                 for n_ in x.names:
                     mod_counts[n_] = mod_counts.get(n_, 0) + 2
+        mod_dicts = {k: v for k, v in mod_consts.items()
+                     if mod_counts.get(k) == 1 and isinstance(v, ast.Dict)
+                     and all(k_ is not None for k_ in v.keys)}
         mod_consts = {k: v for k, v in mod_consts.items()
                       if mod_counts.get(k) == 1
                       and isinstance(v, (ast.Tuple, ast.List))}
@@ -1159,6 +1192,29 @@ class Inliner:
                                 it.id) and it.id in mod_consts and \
                                 it.id not in {a.arg for a in f.args.args}:
                             it = mod_consts[it.id]
+                        elif isinstance(it, ast.Call) and isinstance(
+                                it.func, ast.Attribute) and it.func.attr in (
+                                    'items', 'keys', 'values') and \
+                                not it.args and isinstance(
+                                    it.func.value, ast.Name) and \
+                                it.func.value.id in mod_dicts and \
+                                not counts.get(it.func.value.id):
+                            d_ = mod_dicts[it.func.value.id]
+                            if it.func.attr == 'items':
+                                it = ast.Tuple(elts=[
+                                    ast.Tuple(elts=[k_, v_], ctx=ast.Load())
+                                    for k_, v_ in zip(d_.keys, d_.values)],
+                                    ctx=ast.Load())
+                            elif it.func.attr == 'keys':
+                                it = ast.Tuple(elts=list(d_.keys),
+                                               ctx=ast.Load())
+                            else:
+                                it = ast.Tuple(elts=list(d_.values),
+                                               ctx=ast.Load())
+                        elif isinstance(it, ast.Name) and not counts.get(
+                                it.id) and it.id in mod_dicts:
+                            it = ast.Tuple(elts=list(mod_dicts[it.id].keys),
+                                           ctx=ast.Load())
                         if not isinstance(it, (ast.Tuple, ast.List)) or \
                                 not (0 < len(it.elts) <= 12) or \
                                 not all(simple(x) for x in it.elts):
